@@ -114,7 +114,7 @@ pub fn exec(case: &[i64]) -> Outcome {
       };
       let mut j = Jwk::new(kt(v[0]));
       let mut obs = Vec::new();
-      let mut why: Option<&str> = None;
+      let mut why: Option<&str> = None; let mut used_params_mut = false;
       describe(&j, &mut obs);
       let mut ops = &v[1..];
       while ops.len() >= 3 {
@@ -122,12 +122,14 @@ pub fn exec(case: &[i64]) -> Outcome {
         match t {
           0 => { j.set_kty(kt(a)); obs.push(1); }
           1 => { let before = j.clone(); match j.set_params(mk(a, b != 0)) { Ok(()) => obs.push(1), Err(_) => { obs.push(0); if j != before { why = Some("refused set_params changed the key"); } } } }
+          3 => { *j.params_mut() = mk(a, b != 0); obs.push(1); used_params_mut = true; }      // whole-value assignment through the mutable accessor
           _ => { j = Jwk::from_params(mk(a, b != 0)); obs.push(1); }
         }
         describe(&j, &mut obs);
         if kty_code(j.kty()) != family(&j) { why = Some("declared kty differs from the parameter family"); }
       }
-      let o = Outcome::new(obs).class("setters");
+      let mut o = Outcome::new(obs).class("setters");
+      if used_params_mut { o = o.known("K_params_mut"); }
       match why { Some(w) => o.fail(w), None => o }
     }
     _ => Outcome::new(vec![-998]).fail("bad case kind"),
@@ -163,6 +165,8 @@ pub fn gen(rng: &mut Rng, thorough: bool, sink: &mut Sink) {
     let mut c = vec![2, k0]; c.extend(a); c.extend(b); sink.case(c, "setters-depth2");
     if thorough { for d in &steps { let mut c = vec![2, k0]; c.extend(a); c.extend(b); c.extend(d); sink.case(c, "setters-depth3"); } }
   } } }
+  // whole-value assignment through params_mut(): every family over every declared type, alone and followed by each checked step
+  for k0 in 0..4 { for fam in 0..4 { for p in 0..2 { sink.case(vec![2, k0, 3, fam, p], "params-mut-assign"); for a in &steps { let mut c = vec![2, k0, 3, fam, p]; c.extend(a); sink.case(c, "params-mut-assign"); } } } }
   for _ in 0..(if thorough { 5000 } else { 500 }) {
     let mut c = vec![2, rng.range(0, 3)];
     for _ in 0..rng.range(3, 12) { c.extend(rng.pick(&steps)); }
